@@ -737,6 +737,10 @@ func main() {
 		"'exactly once with a timeout' is decided at timeout + 10 s")
 	timeouts := []time.Duration{20 * time.Millisecond, 100 * time.Millisecond, 400 * time.Millisecond}
 	reps := run.Pick(2, 12)
+	if os.Getenv("VERIF_C03_ONLY") == "retry" { // development aid
+		runRetryQueueAll(run)
+		run.Finish()
+	}
 	if run.SubMode == "race" {
 		runOnline(run, []string{"websocket"}, timeouts, 2)
 		for natt := 0; natt <= 3; natt++ {
@@ -762,6 +766,7 @@ func main() {
 		runMidFlight(run, 24)
 		runMidFlightReconnect(run, 8)
 	}
+	runRetryQueueAll(run)
 	if bin := os.Getenv("VERIF_RACE_BIN"); bin != "" && run.Thorough() {
 		if s, err := vk.RunSub(bin, "race", run, 20*time.Minute); err != nil {
 			run.Inconclusive("race sub-pass: " + err.Error())
